@@ -1,4 +1,4 @@
-import FormulaicVerif.Model.Contrasts
+import FormulaicVerif.Model.ContrastsExt
 /-! # Model of `FormulaMaterializer._encode_evaled_factor` for a contrast-coded factor `C(x, contr.…)`
 
 One call of `model_matrix` (one *materialization*) may need the same factor several times: as a main
@@ -6,15 +6,17 @@ effect and inside interactions, in one or several parts of a multi-part formula,
 place and in reduced rank in another. The materializer keeps `self.encoded_cache`, keyed by
 `factor.expr` or `(factor.expr, reduced_rank)`, and each `ModelSpec` (one per part) keeps the
 factor's encoder state (`categories`). This file models exactly that bookkeeping for ONE factor
-expression, on top of `Model.Contrasts.encodeContrasts` (the encoder that `C(...)` installs).
+expression, on top of `Model.ContrastsExt.xEncodeContrasts` (the encoder that `C(...)` installs: `encode_contrasts`
+with whatever was given as `contrasts` — an instance of a built-in coding, a class, nothing, a custom coding as
+`contr.custom(...)` or as a bare dict / array; for an instance of a built-in coding it is `Model.Contrasts.encodeContrasts`).
 
 Core Lean only. `Props.C11.cache_transparent` proves that the bookkeeping is invisible: every request
 of every history is answered by what a stand-alone `encode_contrasts` call returns. -/
 namespace FormulaicVerif.Model.ContrastsCache
-open FormulaicVerif.Model.Contrasts
+open FormulaicVerif.Model.Contrasts FormulaicVerif.Model.ContrastsExt
 
 inductive MErr where
-  | encode (e : Err)   -- raised by the factor's encoder (`encode_contrasts`)
+  | encode (e : XErr)  -- raised by the factor's encoder (`encode_contrasts`)
   | keyError           -- `del encoded[drop_field]` with a field that is not a column
   deriving DecidableEq, Repr
 
@@ -44,7 +46,8 @@ def truthy : Option Label → Bool
 /-- what stays fixed during one materialization -/
 structure Factor where
   data : List (Option Label)
-  contrast : Contrast
+  /-- the second argument of `C(x, …)`, in whatever form it was given -/
+  contrast : ContrastArg
   /-- `levels=` of `C(...)` -/
   levels : Option (List Label)
   /-- `spec.output` -/
@@ -107,7 +110,7 @@ def step (f : Factor) (s : State) (q : Request) : Except MErr (Encoded × State)
           | .error e => .error e
           | .ok out => .ok (out, { s with spec := some (spec.getD recorded) })
       | none =>
-          match encodeContrasts f.data f.contrast (levelsOrState f.levels spec) q.reduced f.output with
+          match xEncodeContrasts f.data f.contrast (levelsOrState f.levels spec) q.reduced f.output with
           | .error e => .error (.encode e)
           | .ok (enc, cats) =>
               let cache := if truthy f.evalDrop then { s.cache with byExpr := some (enc, cats) }
